@@ -363,6 +363,59 @@ func TestVerif_Probes(t *testing.T) {
 		}
 		r.Case(vkit.NewHash().Str("script-commands").Sum(), true)
 	}
+	// the collector between its lock-free scan and its write transaction: every dead object it saw is brought back (re-inserted)
+	// before it gets the table locks, so its transaction finds nothing to collect - it must still be finished
+	for round := 0; round < vkit.N(20, 400) && r.Violations() < 3; round++ {
+		hn := fmt.Sprintf("gcprobe%d", round)
+		db := statedb.New().NewHandle(hn)
+		db.VerifSetGCInterval(time.Millisecond)
+		tabs := concw.NewTables(db, "g", 2)
+		pa := ctl.PauseAt(hn, "gc.afterScan")
+		db.Start()
+		w := db.WriteTxn(tabs[0])
+		it, err := tabs[0].Changes(w)
+		w.Commit()
+		if err != nil {
+			t.Fatal(err)
+		}
+		n := 1 + round%3
+		for k := 0; k < n; k++ {
+			w = db.WriteTxn(tabs[0], tabs[1])
+			tabs[0].Insert(w, &concw.Row{ID: fmt.Sprint(k), V: 1})
+			tabs[1].Insert(w, &concw.Row{ID: fmt.Sprint(k), V: 1})
+			w.Commit()
+		}
+		w = db.WriteTxn(tabs[0])
+		for k := 0; k < n; k++ {
+			tabs[0].Delete(w, &concw.Row{ID: fmt.Sprint(k)})
+		}
+		w.Commit()
+		seq, _ := it.Next(db.ReadTxn()) // observing the deletions lets the collector go
+		for range seq {
+		}
+		reached := pa.WaitPaused(5 * time.Second)
+		if reached {
+			w = db.WriteTxn(tabs[0])
+			for k := 0; k < n; k++ {
+				tabs[0].Insert(w, &concw.Row{ID: fmt.Sprint(k), V: 2})
+			}
+			w.Commit()
+			r.Count("collector_paused_and_resurrected", 1)
+		}
+		pa.Resume()
+		time.Sleep(3 * time.Millisecond)
+		if !within(10*time.Second, func() {
+			w := db.WriteTxn(tabs[1], tabs[0])
+			tabs[0].Insert(w, &concw.Row{ID: "probe"})
+			w.Abort()
+			it.Close()
+		}) {
+			r.Violation("blocked-after-collection", round, map[string]any{"message": fmt.Sprintf("the collector scanned %d dead object(s), all of which were re-inserted before it got its write transaction; afterwards a WriteTxn over the tables (or closing the iterator) is never granted", n)})
+		} else {
+			db.Stop()
+		}
+		r.Case(vkit.NewHash().Str("gc-resurrect").Int(int64(round)).Sum(), reached)
+	}
 	// statedb.Derive opens a write transaction on the output table for every batch of changes: stopping the job while it is idle or
 	// in the middle of a batch must leave both tables lockable
 	for variant := 0; variant < 4 && r.Violations() < 3; variant++ {
